@@ -115,6 +115,28 @@ def models():
             o = o - p["P"][i] * v[i]
         return dict(P=Problem().minimize(o), exprs=[o], vars=list(v))
 
+    def m_paramtimesnode(p):
+        # a scalar Parameter DIRECTLY multiplying a whole-vector node, the product (plus a constant offset) being the
+        # entire objective / constraint expression
+        v = VectorVariable("v", 3, lb=0.0, ub=4.0)
+        o = p["p"] * v.dot(v) - 1
+        c = p["q"] * v.sum() >= 3
+        return dict(P=Problem().minimize(o).subject_to(c), exprs=[o, c.expr], vars=list(v))
+
+    def m_paramreduction(p):
+        # reductions over a vector whose elements are Parameters ONLY (a data total, a weighted total, a squared
+        # length), sitting under operators whose other operands are variable-free as well
+        from optyx.core.expressions import Constant, Expression
+        from optyx.core.vectors import VectorExpression
+
+        x, y = xy()
+        dvec = VectorExpression([e if isinstance(e, Expression) else Constant(float(e)) for e in list(p["P"])])
+        total = dvec.sum()
+        weighted = np.array([1.0, 0.0, 2.0]) @ dvec
+        length = dvec.dot(dvec)
+        o = (x - 0.5 * total) ** 2 + x * (-weighted) + x ** 2 / (length + 1)
+        return dict(P=Problem().minimize(o), exprs=[o], vars=[x])
+
     def m_vecmatmul(p):
         v = VectorVariable("v", 3, lb=0.0, ub=4.0)
         o = v.dot(v) - (p["P"] @ v)
@@ -146,6 +168,8 @@ def models():
         "linear-in-x": ({"p": (1.0, 3.0, -1.0), "q": (1.0, 2.0, 0.5)}, m_linear),
         "linear-constraint-row": ({"p": (1.0, 3.0, 0.5)}, m_linconcoef),
         "vector-elements": ({"P": ((1.0, 2.0, 3.0), (3.0, 0.5, 1.0), (0.0, 4.0, 2.0))}, m_vecelems),
+        "parameter-times-vector-node": ({"p": (1.0, 2.0, 0.5), "q": (1.0, 2.0, 0.5)}, m_paramtimesnode),
+        "parameter-only-reductions": ({"P": ((1.0, 2.0, 3.0), (3.0, 0.5, 1.0), (0.0, 4.0, 2.0))}, m_paramreduction),
         "P@x": ({"P": ((1.0, 2.0, 3.0), (3.0, 0.5, 1.0), (0.0, 4.0, 2.0))}, m_vecmatmul),
         "x.dot(S@x)": ({"S": (S1, S2, S3)}, m_matparam),
     }
